@@ -23,6 +23,8 @@ inline void post<a32>(const volatile a32* a, int kind, a32 before, a32 after) {
 #define RMW(N, name, builtin)                                                     \
   extern "C" a##N __tsan_atomic##N##_##name(volatile a##N* a, a##N v, int mo) {   \
     sim_point(SP_RMW, (const void*)a);                                            \
+    if (sim_tso_active)                                                           \
+      sim_tso_flush_self(); /* locked instruction */                              \
     a##N before = builtin(a, v, __ATOMIC_SEQ_CST);                                \
     post<a##N>(a, SP_RMW, before, __atomic_load_n(a, __ATOMIC_SEQ_CST));          \
     sim_race_atomic((const void*)a, 2, mo);                                       \
@@ -32,13 +34,22 @@ inline void post<a32>(const volatile a32* a, int kind, a32 before, a32 after) {
 #define SHIM(N)                                                                                       \
   extern "C" a##N __tsan_atomic##N##_load(const volatile a##N* a, int mo) {                           \
     sim_point(SP_LOAD, (const void*)a);                                                               \
-    a##N v = __atomic_load_n(a, __ATOMIC_SEQ_CST);                                                    \
+    a##N v;                                                                                           \
+    uint64_t fwd;                                                                                     \
+    if (sim_tso_active && sim_tso_forward((const volatile void*)a, N / 8, &fwd))                      \
+      v = (a##N)fwd; /* the caller's own store, still in its store buffer */                          \
+    else                                                                                              \
+      v = __atomic_load_n(a, __ATOMIC_SEQ_CST);                                                       \
     post<a##N>(a, SP_LOAD, v, v);                                                                     \
     sim_race_atomic((const void*)a, 0, mo);                                                           \
     return v;                                                                                         \
   }                                                                                                   \
   extern "C" void __tsan_atomic##N##_store(volatile a##N* a, a##N v, int mo) {                        \
     sim_point(SP_STORE, (const void*)a);                                                              \
+    if (sim_tso_active && sim_tso_store((volatile void*)a, N / 8, (uint64_t)v, mo)) {                 \
+      sim_race_atomic((const void*)a, 1, mo);                                                         \
+      return; /* sits in the store buffer; reaches memory later */                                    \
+    }                                                                                                 \
     a##N before = __atomic_load_n(a, __ATOMIC_SEQ_CST);                                               \
     __atomic_store_n(a, v, __ATOMIC_SEQ_CST);                                                         \
     post<a##N>(a, SP_STORE, before, v);                                                               \
@@ -54,6 +65,8 @@ inline void post<a32>(const volatile a32* a, int kind, a32 before, a32 after) {
   extern "C" int __tsan_atomic##N##_compare_exchange_strong(volatile a##N* a, a##N* c, a##N v, int mo, \
                                                             int fmo) {                                \
     sim_point(SP_CAS, (const void*)a);                                                                \
+    if (sim_tso_active)                                                                               \
+      sim_tso_flush_self();                                                                           \
     a##N expected = *c;                                                                               \
     int ok = __atomic_compare_exchange_n(a, c, v, false, __ATOMIC_SEQ_CST, __ATOMIC_SEQ_CST);         \
     /* before = observed value; after = new value; a successful CAS is reported as SP_CAS, a failed */ \
@@ -65,6 +78,8 @@ inline void post<a32>(const volatile a32* a, int kind, a32 before, a32 after) {
   extern "C" int __tsan_atomic##N##_compare_exchange_weak(volatile a##N* a, a##N* c, a##N v, int mo,  \
                                                           int fmo) {                                  \
     sim_point(SP_CAS, (const void*)a);                                                                \
+    if (sim_tso_active)                                                                               \
+      sim_tso_flush_self();                                                                           \
     a##N expected = *c;                                                                               \
     int ok = __atomic_compare_exchange_n(a, c, v, false, __ATOMIC_SEQ_CST, __ATOMIC_SEQ_CST);         \
     post<a##N>(a, ok ? SP_CAS : SP_LOAD, ok ? expected : *c, ok ? v : *c);                            \
@@ -74,6 +89,8 @@ inline void post<a32>(const volatile a32* a, int kind, a32 before, a32 after) {
   extern "C" a##N __tsan_atomic##N##_compare_exchange_val(volatile a##N* a, a##N c, a##N v, int mo,   \
                                                           int fmo) {                                  \
     sim_point(SP_CAS, (const void*)a);                                                                \
+    if (sim_tso_active)                                                                               \
+      sim_tso_flush_self();                                                                           \
     a##N expected = c;                                                                                \
     int ok = __atomic_compare_exchange_n(a, &c, v, false, __ATOMIC_SEQ_CST, __ATOMIC_SEQ_CST);        \
     post<a##N>(a, ok ? SP_CAS : SP_LOAD, ok ? expected : c, ok ? v : c);                              \
@@ -88,6 +105,8 @@ SHIM(64)
 
 extern "C" void __tsan_atomic_thread_fence(int mo) {
   sim_point(SP_FENCE, nullptr);
+  if (sim_tso_active && mo == 5)
+    sim_tso_flush_self(); // mfence; weaker fences are compiler-only on x86
   __atomic_thread_fence(__ATOMIC_SEQ_CST);
   sim_race_fence(mo);
 }
@@ -159,6 +178,29 @@ extern "C" void __tsan_read_range(void* a, unsigned long n) {
 }
 extern "C" void __tsan_write_range(void* a, unsigned long n) {
   sim_plain_point_n(__builtin_return_address(0), a, 1, n > 256 ? 256 : (int)n);
+}
+// memory intrinsics (fine variants instrument them so that a memset/memcpy over a location with a pending
+// buffered store is seen)
+#include <string.h>
+extern "C" void* __tsan_memset(void* d, int c, unsigned long n) {
+  sim_plain_point_n(__builtin_return_address(0), d, 1, n > 256 ? 256 : (int)n);
+  if (n > 256)
+    sim_tso_free_range(d, n);
+  return memset(d, c, n);
+}
+extern "C" void* __tsan_memcpy(void* d, const void* s_, unsigned long n) {
+  sim_plain_point_n(__builtin_return_address(0), s_, 0, n > 256 ? 256 : (int)n);
+  sim_plain_point_n(__builtin_return_address(0), d, 1, n > 256 ? 256 : (int)n);
+  if (n > 256)
+    sim_tso_free_range(d, n);
+  return memcpy(d, s_, n);
+}
+extern "C" void* __tsan_memmove(void* d, const void* s_, unsigned long n) {
+  sim_plain_point_n(__builtin_return_address(0), s_, 0, n > 256 ? 256 : (int)n);
+  sim_plain_point_n(__builtin_return_address(0), d, 1, n > 256 ? 256 : (int)n);
+  if (n > 256)
+    sim_tso_free_range(d, n);
+  return memmove(d, s_, n);
 }
 extern "C" void __tsan_func_entry(void*) {}
 extern "C" void __tsan_func_exit() {}
